@@ -432,6 +432,30 @@ func (fr *frame) libCall(instr *ssa.Call, callee *ssa.Function, name string, sig
 		fr.escapeArgs(st, args)
 		cl := fr.operandsClean(instr, args, st)
 		r := ft.fresh("sprintf", SStr)
+		// a constant format applied to strings, integers and booleans is a pure
+		// function of these operands: the same uninterpreted function everywhere
+		if ops, ok := sprintfOperands(instr); ok {
+			var as []string
+			var sorts []Sort
+			scalar := true
+			for _, o := range ops {
+				so := u.sortOf(o.Type())
+				if so != SStr && so != SInt && so != SBool {
+					scalar = false
+					break
+				}
+				as = append(as, fr.term(o).S)
+				sorts = append(sorts, so)
+			}
+			if scalar {
+				fn := u.sprintfUF(constant.StringVal(fc.Value), sorts)
+				if len(as) == 0 {
+					r = ft.define("sprintf", SStr, fn)
+				} else {
+					r = ft.define("sprintf", SStr, sx(fn, as...))
+				}
+			}
+		}
 		ft.assume("true", sx(">", sx("strlen", r), "0"))
 		if cl != "" {
 			ft.assume("true", eq(sx("spec$secretFree", r), cl))
@@ -461,6 +485,56 @@ func (fr *frame) libCall(instr *ssa.Call, callee *ssa.Function, name string, sig
 		return reach, true
 	}
 	return reach, false
+}
+
+// sprintfOperands: the values boxed into the variadic argument of a call
+// fmt.Sprintf(format, a, b, ...), in order (false if the call is not of that
+// plain shape).
+func sprintfOperands(instr *ssa.Call) ([]ssa.Value, bool) {
+	if len(instr.Call.Args) != 2 {
+		return nil, false
+	}
+	if k, ok := instr.Call.Args[1].(*ssa.Const); ok && k.Value == nil {
+		return nil, true // no operands
+	}
+	sl, ok := instr.Call.Args[1].(*ssa.Slice)
+	if !ok {
+		return nil, false
+	}
+	al, ok := sl.X.(*ssa.Alloc)
+	if !ok {
+		return nil, false
+	}
+	at, ok := al.Type().Underlying().(*types.Pointer).Elem().Underlying().(*types.Array)
+	if !ok {
+		return nil, false
+	}
+	ops := make([]ssa.Value, at.Len())
+	for _, ref := range *al.Referrers() {
+		ia, ok := ref.(*ssa.IndexAddr)
+		if !ok {
+			continue
+		}
+		k, ok := ia.Index.(*ssa.Const)
+		if !ok {
+			return nil, false
+		}
+		for _, r2 := range *ia.Referrers() {
+			if stI, ok := r2.(*ssa.Store); ok && stI.Addr == ssa.Value(ia) {
+				v := stI.Val
+				if mi, ok := v.(*ssa.MakeInterface); ok {
+					v = mi.X
+				}
+				ops[k.Int64()] = v
+			}
+		}
+	}
+	for _, o := range ops {
+		if o == nil {
+			return nil, false
+		}
+	}
+	return ops, true
 }
 
 // taintDecls declares the taint predicates of /verif/specs/taint.vc when the
